@@ -61,8 +61,8 @@ mod verif_enum_hist {
     type Model = BTreeMap<&'static str, Q>;
 
     #[derive(Debug)]
-    struct Fail { tags: Vec<&'static str>, detail: String }
-    fn fail<T>(tags: &[&'static str], detail: String) -> Result<T, Fail> { Err(Fail { tags: tags.to_vec(), detail }) }
+    struct Fail { tags: Vec<&'static str>, detail: String, wrong: Vec<&'static str> } // wrong: the queues observed wrong (for the C18 attribution)
+    fn fail<T>(tags: &[&'static str], detail: String) -> Result<T, Fail> { Err(Fail { tags: tags.to_vec(), detail, wrong: Vec::new() }) }
 
     // ---------------------------------------------------------------- the directory, seen independently of the crate
     fn wal_name(n: &str) -> Option<u64> {
@@ -222,7 +222,8 @@ mod verif_enum_hist {
             }
         }
         tags.sort(); tags.dedup();
-        fail(&tags, format!("recovered state differs from the state before: recovered [{}], expected [{}]", short(got), short(&exp)))
+        let wrong: Vec<&'static str> = QUEUES.iter().copied().filter(|k| got.get(*k) != exp.get(*k)).collect();
+        Err(Fail { tags, detail: format!("recovered state differs from the state before: recovered [{}], expected [{}]", short(got), short(&exp)), wrong })
     }
 
     fn policy(p: Pol) -> PersistPolicy {
@@ -232,6 +233,16 @@ mod verif_enum_hist {
         for e in std::fs::read_dir(from).unwrap() {
             let e = e.unwrap();
             if e.file_type().unwrap().is_file() { std::fs::copy(e.path(), to.join(e.file_name())).unwrap(); } else { std::fs::create_dir(to.join(e.file_name())).unwrap(); }
+        }
+    }
+
+    /// what the files hold right now (the log still open, nothing flushed for the occasion) must recover to exactly the model
+    fn crash_image(dir: &Path, m: &Model, pol: Pol) -> Result<(), Fail> {
+        let img = tempfile::tempdir().unwrap();
+        copy_dir(dir, img.path());
+        match MultiRecordLog::open_with_prefs(img.path(), policy(pol)) {
+            Ok(l2) => check_recovered(&observe(&l2), m, "C03").map_err(|f| Fail { tags: f.tags, detail: format!("process-crash image (every call so far is persisted under {pol:?}): {}", f.detail), wrong: f.wrong }),
+            Err(e) => fail(&["C03", "C10"], format!("process-crash image: open fails: {e:?}")),
         }
     }
 
@@ -307,7 +318,7 @@ mod verif_enum_hist {
                     drop(log);
                     log = match MultiRecordLog::open_with_prefs(dir, policy(pol)) { Ok(l) => l, Err(e) => return fail(&["C01", "C10"], format!("{step}: open after a clean shutdown fails: {e:?}")) };
                     let got = observe(&log);
-                    check_recovered(&got, &m, "C01").map_err(|f| Fail { tags: f.tags, detail: format!("{step}: {}", f.detail) })?;
+                    check_recovered(&got, &m, "C01").map_err(|f| Fail { tags: f.tags, detail: format!("{step}: {}", f.detail), wrong: f.wrong })?;
                     all_persisted = true;
                 }
                 Op::Create(q) => {
@@ -327,13 +338,23 @@ mod verif_enum_hist {
                     }
                 }
                 Op::Append(q, _, _) => {
-                    let r = log.append_records(QUEUES[q], pos_opt, payloads.iter().map(|p| p.as_slice()));
+                    // the single-record entry point for the 1-record batches Small / Big, the batch entry point otherwise
+                    let single = payloads.len() == 1 && !payloads[0].is_empty();
+                    let r = if single { log.append_record(QUEUES[q], pos_opt, payloads[0].as_slice()) } else { log.append_records(QUEUES[q], pos_opt, payloads.iter().map(|p| p.as_slice())) };
                     match (&exp, r) {
                         (Exp::Appended(p), Ok(o)) => {
                             let last = *p + payloads.len() as u64 - 1;
                             if o.last_position != Some(last) {
                                 let mut tags = vec!["C05"];
                                 if o.last_position.map(|l| l < last).unwrap_or(true) { tags.push("C04"); }
+                                if payloads.len() >= 2 {
+                                    // C12: a batch applied in part (its first records are there, its tail is not)
+                                    let g = observe(&log);
+                                    if let Some(gq) = g.get(QUEUES[q]) {
+                                        let n = payloads.iter().enumerate().filter(|(j, pl)| gq.0.iter().any(|x| x.0 == *p + *j as u64 && x.1 == **pl)).count();
+                                        if n != 0 && n != payloads.len() { tags.push("C12"); }
+                                    }
+                                }
                                 return fail(&tags, format!("{step} (position_opt {pos_opt:?}, {} records): last_position {:?}, the specification says Some({last})", payloads.len(), o.last_position));
                             }
                             wal_bytes = Some(o.wal_bytes_written);
@@ -379,7 +400,15 @@ mod verif_enum_hist {
                 if QUEUES.iter().any(|k| *k != addressed && got.get(*k) != expo.get(*k)) { tags.push("C18"); }
                 if no_trace { tags.push("C13"); }
                 if let (Some(g), Some(e)) = (got.get(addressed), expo.get(addressed)) { if g.1 < e.1 { tags.push("C04"); } }
-                return fail(&tags, format!("{step}: observable state [{}], the specification says [{}]", short(&got), short(&expo)));
+                // C12: a batch applied in part
+                if payloads.len() >= 2 && matches!(exp, Exp::Appended(_)) {
+                    if let Some(g) = got.get(addressed) {
+                        let n = m[addressed].recs.iter().filter(|r| r.2 == seq && g.0.iter().any(|x| x.0 == r.0 && x.1 == r.1)).count();
+                        if n != 0 && n != payloads.len() { tags.push("C12"); }
+                    }
+                }
+                let wrong: Vec<&'static str> = QUEUES.iter().copied().filter(|k| got.get(*k) != expo.get(*k)).collect();
+                return Err(Fail { tags, detail: format!("{step}: observable state [{}], the specification says [{}]", short(&got), short(&expo)), wrong });
             }
             for k in QUEUES.iter().chain(["nope"].iter()) {
                 if log.queue_exists(k) != m.contains_key(*k) { return fail(&["C05"], format!("{step}: queue_exists({k}) = {}", log.queue_exists(k))); }
@@ -389,8 +418,8 @@ mod verif_enum_hist {
                 || m.iter().any(|(k, q)| summary.queues[*k].end != q.next().checked_sub(1)) {
                 return fail(&["C05"], format!("{step}: summary() does not list the queues with their last positions"));
             }
-            check_ranges(&log, &m).map_err(|f| Fail { tags: f.tags, detail: format!("{step}: {}", f.detail) })?;
-            check_memory(&log, &m).map_err(|f| Fail { tags: f.tags, detail: format!("{step}: {}", f.detail) })?;
+            check_ranges(&log, &m).map_err(|f| Fail { tags: f.tags, detail: format!("{step}: {}", f.detail), wrong: f.wrong })?;
+            check_memory(&log, &m).map_err(|f| Fail { tags: f.tags, detail: format!("{step}: {}", f.detail), wrong: f.wrong })?;
             if matches!(exp, Exp::Truncated(_)) {
                 let used = log.resource_usage().memory_used_bytes;
                 if used + evicted_payload > used_before { return fail(&["C16"], format!("{step}: memory_used_bytes went from {used_before} to {used} although {evicted_payload} payload bytes were evicted")); }
@@ -401,7 +430,7 @@ mod verif_enum_hist {
                 if used != names { return fail(&["C16"], format!("{step}: every queue is empty but memory_used_bytes is {used}, the names-only baseline is {names}")); }
             }
             let gc_call = matches!(*op, Op::Reopen) || matches!(exp, Exp::Truncated(_) | Exp::Deleted);
-            check_directory(&log, dir, &m, cur_file, gc_call).map_err(|f| Fail { tags: f.tags, detail: format!("{step}: {}", f.detail) })?;
+            check_directory(&log, dir, &m, cur_file, gc_call).map_err(|f| Fail { tags: f.tags, detail: format!("{step}: {}", f.detail), wrong: f.wrong })?;
             // ---- C13: no trace in the WAL files, reported bytes 0
             if no_trace {
                 if wal_bytes != Some(0) { return fail(&["C13", "C15"], format!("{step} is rejected / a no-op but reports wal_bytes_written {wal_bytes:?}")); }
@@ -417,19 +446,26 @@ mod verif_enum_hist {
                         let between = wal_files(dir).iter().filter(|f| f.0 > before.0 && f.0 < after.0).map(|f| std::fs::metadata(&f.1).unwrap().len() as i64).sum::<i64>();
                         (before.1 - before.2) as i64 + between + after.2 as i64
                     };
-                    if growth != w as i64 { return fail(&["C15"], format!("{step}: wal_bytes_written {w}, the data in the WAL files grew by {growth} bytes (file {} offset {} -> file {} offset {})", before.0, before.2, after.0, after.2)); }
+                    if growth != w as i64 {
+                        let what = format!("{step}: wal_bytes_written {w}, the data in the WAL files grew by {growth} bytes (file {} offset {} -> file {} offset {})", before.0, before.2, after.0, after.2);
+                        // bytes reported but not in the files: either they never reached the OS although this call persists (C03), or the count is wrong (C15)
+                        if growth < w as i64 {
+                            if let Err(f) = crash_image(dir, &m, pol) {
+                                return Err(Fail { tags: f.tags, detail: format!("{what}: the call returned without its bytes having reached the file -- {}", f.detail), wrong: f.wrong });
+                            }
+                            let _ = log.persist(PersistAction::Flush);
+                            let after2 = end_of_data(dir);
+                            if after2.0 == after.0 && after2.2 as i64 - after.2 as i64 == w as i64 - growth {
+                                return fail(&["C03"], format!("{what}: the missing bytes appear after an explicit flush -- the call returned under {pol:?} without flushing them"));
+                            }
+                        }
+                        return fail(&["C15"], what);
+                    }
                 }
             }
         }
         // ---- C03 (process-crash image of a state in which every call is persisted): what is in the files now recovers to exactly the model
-        if all_persisted {
-            let img = tempfile::tempdir().unwrap();
-            copy_dir(dir, img.path());
-            match MultiRecordLog::open_with_prefs(img.path(), policy(pol)) {
-                Ok(l2) => check_recovered(&observe(&l2), &m, "C03").map_err(|f| Fail { tags: f.tags, detail: format!("crash image after the last call (every call persisted under {pol:?}): {}", f.detail) })?,
-                Err(e) => return fail(&["C03", "C10"], format!("crash image after the last call: open fails: {e:?}")),
-            }
-        }
+        if all_persisted { crash_image(dir, &m, pol)?; }
         Ok(())
     }
 
@@ -446,7 +482,7 @@ mod verif_enum_hist {
 
     /// every history of exactly `depth` ops over `ops`, spread over the cores; failures come back with their tags refined:
     /// C14 when the default policy passes the same history, C18 when the history projected on the failing queue's own calls passes
-    fn explore(ops: &[Op], depth: usize, label: &str) -> (u64, Vec<String>) {
+    fn explore(prefix: &[Op], ops: &[Op], depth: usize, label: &str) -> (u64, Vec<String>) {
         let total = (ops.len() as u64).pow(depth as u32);
         let nthreads = std::thread::available_parallelism().map(|n| n.get()).unwrap_or(4) as u64;
         let fails = std::sync::Mutex::new(Vec::<String>::new());
@@ -457,7 +493,7 @@ mod verif_enum_hist {
                 s.spawn(move || {
                     let mut idx = t;
                     while idx < total {
-                        let mut h = Vec::with_capacity(depth);
+                        let mut h: Vec<Op> = prefix.to_vec();
                         let mut x = idx;
                         for _ in 0..depth { h.push(ops[(x % ops.len() as u64) as usize]); x /= ops.len() as u64; }
                         let pols: &[Pol] = match idx % 3 { 0 => &[Pol::AlwaysFlush, Pol::DoNothing], 1 => &[Pol::AlwaysFlush, Pol::AlwaysFsync], _ => &[Pol::AlwaysFlush] };
@@ -465,11 +501,10 @@ mod verif_enum_hist {
                             if let Err(mut f) = run_caught(&h, pol) {
                                 if pol != Pol::AlwaysFlush && run_caught(&h, Pol::AlwaysFlush).is_ok() { f.tags.push("C14"); }
                                 for q in 0..2 {
+                                    // C18: the queue observed wrong is fine when the calls addressed to the OTHER queue are removed from the history
+                                    if !f.wrong.contains(&QUEUES[q]) || f.tags.contains(&"C18") { continue; }
                                     let proj: Vec<Op> = h.iter().copied().filter(|o| match o { Op::Create(x) | Op::Delete(x) | Op::Append(x, _, _) | Op::Truncate(x, _) => *x == q, Op::Reopen => true }).collect();
-                                    if proj.len() < h.len() && !f.tags.contains(&"C18") && run_caught(&proj, pol).is_ok() {
-                                        // the calls addressed to the other queue make the difference; was it this queue that was observed wrong?
-                                        if f.detail.contains(&format!("{}: positions", QUEUES[q])) { f.tags.push("C18"); }
-                                    }
+                                    if proj.len() < h.len() && proj.iter().any(|o| !matches!(o, Op::Reopen)) && run_caught(&proj, pol).is_ok() { f.tags.push("C18"); }
                                 }
                                 f.tags.sort(); f.tags.dedup();
                                 let key = f.tags.join(",");
@@ -498,14 +533,14 @@ mod verif_enum_hist {
         assert!(fails.is_empty(), "{name}: {} failing histories, first: {}", fails.len(), fails[0]);
     }
 
-    /// E-hist (fall-back of the quick tier): every history of 3 ops over the full alphabet, every history of 5 ops over the core alphabet
+    /// E-hist (fall-back of the quick tier): every history of 3 ops over the full alphabet, both queues created, then every history of 5 ops over the core alphabet
     #[test]
     fn e_hist_quick() {
-        report(vec![explore(&all_ops(), 3, "full-3"), explore(&core_ops(), 5, "core-5")], "E-hist");
+        report(vec![explore(&[], &all_ops(), 3, "full-3"), explore(&[Op::Create(0), Op::Create(1)], &core_ops(), 5, "core-5")], "E-hist");
     }
-    /// E-hist-deep (thorough tier): depth 4 over the full alphabet, depth 6 over the core alphabet
+    /// E-hist-deep (thorough tier): depth 4 over the full alphabet, both queues created, then depth 6 over the core alphabet
     #[test]
     fn e_hist_deep() {
-        report(vec![explore(&all_ops(), 4, "full-4"), explore(&core_ops(), 6, "core-6")], "E-hist-deep");
+        report(vec![explore(&[], &all_ops(), 4, "full-4"), explore(&[Op::Create(0), Op::Create(1)], &core_ops(), 6, "core-6")], "E-hist-deep");
     }
 }
